@@ -19,6 +19,7 @@ Decided:
  R7 Drop disables what was enabled: for every driver whose Drop calls Transport::queue_unset, the set of queue indices
     it unsets equals the set of indices its constructor created queues for (loop ranges with constant bounds are
     expanded); a queue left enabled keeps pointing at memory that is freed right afterwards.
+ R8 a DMA region attached to a device resource leaves driver state only after the detach command (C20.Z4).
  R6 driver-owned buffers parked in driver state are released only after their completion was consumed (C04.P8).
 Not decided: "every k" is not enumerated - R3/R4 make the statement independent of k.
 """
@@ -106,6 +107,11 @@ def run(F, R):
     # the completion was consumed (shared with C04.P8)
     from .C04 import p8_release_after_completion
     p8_release_after_completion(F, RuleProxy(R, {'P8': 'R6'}), M)
+    # R8: a DMA region the device was given as resource backing leaves driver state (set to None / taken) only after the
+    # device was told to detach it - never before a fallible command whose `?` would free it (shared with C20.Z4)
+    if 'device::gpu::VirtIOGpu' in F.adts:
+        from .C20 import z3_z4_gpu
+        z3_z4_gpu(F, RuleProxy(R, {'Z4': 'R8'}), M, roles)
     for name, carriers in list(drivers.items()) + list(wrappers.items()):
         R.count('driver_structs', 1)
         a = F.adts[name]
